@@ -185,7 +185,7 @@ def renames(prog, edges=None, funcs=None):
     return mapping
 
 
-def check(prog, chk, prefixes, what, ops=None, rule="A14.str-ops"):
+def check(prog, chk, prefixes, what, ops=None, rule="A14.str-ops", char_classes_matter=False):
     table, known = load_table()
     cnt, where, edges, funcs = survey(prog)
     ren = renames(prog, edges, funcs)
@@ -223,7 +223,10 @@ def check(prog, chk, prefixes, what, ops=None, rule="A14.str-ops"):
             if a != b:
                 diff.append(f"{f.replace('svgdx::', '')}: {b} -> {a}")
                 loc = where.get((cur, op), loc)
-        altering = op in ALTERING_OPS or op.startswith("is_")
+        # a character-class predicate decides where a name / number / token ends: a violation only where the property
+        # is about that character set (variable names, C15); elsewhere `c.is_ascii_uppercase()` is one more way to
+        # write a test that was a pattern before
+        altering = op in ALTERING_OPS or (op.startswith("is_") and char_classes_matter)
         if have[op] != want[op] and not (altering and have[op] > want[op]):
             chk.undecided(rule, op, loc, f"{'' if op.endswith('()') else 'str::'}{op}{'' if op.endswith('()') else '()'} is applied {have[op]} time(s) in the functions that handle {what} (reviewed inventory: {want[op]}; {'; '.join(diff)}): fewer applications, or a different way of slicing / searching / matching - which a behaviour-preserving rewrite does as well. Review, then regenerate policy/tables/str_ops.json (tools/gen_str_ops.py).")
             continue
@@ -259,7 +262,7 @@ SCOPES = {
 
 def check_for(prog, chk, pid):
     pre, what = SCOPES[pid]
-    return check(prog, chk, pre, what)
+    return check(prog, chk, pre, what, char_classes_matter=(pid == "C15"))
 
 
 def check_number_formatting(prog, chk):
